@@ -519,3 +519,34 @@ def fam_skipuntil(tier):
               inputs=[cps(s) for s in ["a\nb\r\nc", "cab", "xxabc", "aaab", "/**/", "/*a*/", "/* é */", "/*é*/", "/*中*/", "é;", "éé;", "a中;", "中é;é", "'é'", "'中😀'", "ab中a", "é中é中a",
                                         "😀😀;", "aé;", "/*😀*/x", "/*a*", "aaé;"]])
     return [g1]
+
+
+def fam_skiprules(tier):
+    """Exactly one of WHITESPACE / COMMENT defined (and both), with multi-element bodies of every kind: their bodies are
+    matched atomically wherever they are used implicitly; adjacent / nested-looking skip text in every gap."""
+    bodies = ['"#" ~ "#"', '"#" ~ (!"#" ~ ANY)* ~ "#"', '"#"+', '!"##" ~ "#" ~ "!"?', '("#" | " ") ~ "!"?', '"#" ~ ("!" ~ "#")*', '&"#" ~ ANY ~ "#"?']
+    out = []
+    gi = 0
+    for which in ("COMMENT", "WHITESPACE", "both"):
+        for bi, b in enumerate(bodies):
+            for kind in (["silent", "normal"] if tier == "quick" else ["silent", "normal", "atomic", "compound"]):
+                lines = []
+                if which == "both":
+                    lines.append(rule("COMMENT", b, kind))
+                    lines.append(WS_SP)
+                else:
+                    lines.append(rule(which, b, kind))
+                lines += [rule("r0", '"a" ~ "b" ~ "a"'), rule("r1", '("a" | "b")* ~ EOI'), rule("r2", '"a" ~ "b"+', "nonatomic"), rule("r3", 'r2 ~ "a"', "atomic")]
+                g = dict(id="sr%d" % gi, text="\n".join(lines), alphabet=cps("ab#! "), maxlen=0, entries=["r0", "r1", "r2", "r3"])
+                gaps = ["", "#", "##", "###", "# #", "#!#", "#!", "#a#", " ", "#!#!#", "####", "##!", "#b#", "# ##"]
+                ins = set()
+                for g1 in gaps:
+                    for g2 in gaps[:8]:
+                        ins.add("a" + g1 + "b" + g2 + "a")
+                        ins.add("a" + g1 + "b" + g2)
+                        ins.add("ab" + g1 + "b" + g2 + "a")
+                g["inputs"] = [cps(s) for s in sorted(ins)]
+                out.append(g)
+                gi += 1
+    read = peg.pest_read(out, "sr_f")
+    return [g for g, r in zip(out, read) if r.get("valid")]
